@@ -85,6 +85,7 @@ impl SocketBackend for XPubSocketBackend {
 
     fn shutdown(&self) {
         self.subscribers.clear_sync();
+        self.fair_queue_inner.lock().clear();
     }
 
     fn monitor(&self) -> &Mutex<Option<mpsc::Sender<SocketEvent>>> {
